@@ -47,7 +47,10 @@ impl Rt for Crux {
         JoinH { wait: Arc::new(move || h.clone().boxed()), abort: Arc::new(move || h2.abort()) }
     }
     fn yield_now(&self) -> BoxFuture<'static, ()> {
-        self_waking_yield()
+        self_waking_yield(false)
+    }
+    fn yield_by_value(&self) -> BoxFuture<'static, ()> {
+        self_waking_yield(true)
     }
     fn chan_send(&self, c: usize, v: u32) {
         self.uni.chans[c].send(v)
@@ -129,8 +132,20 @@ fn compile_in(c: &Cmd, uni: &Arc<UniCtx>, enclosing: &Arc<Vec<u16>>) -> C {
         }
         Cmd::Then(a, b) => compile_in(&a, uni, enclosing).then(compile_in(&b, uni, enclosing)),
         Cmd::And(a, b) => compile_in(&a, uni, enclosing).and(compile_in(&b, uni, enclosing)),
-        Cmd::All(cs) => Command::all(cs.iter().map(|c| compile_in(c, uni, enclosing))),
-        Cmd::Collect(cs) => cs.iter().map(|c| compile_in(c, uni, enclosing)).collect(),
+        // `all` and `collect` take any iterator: one that knows its length, one that does not (a filter
+        // reports a lower bound of zero), one that is a bare generator function
+        Cmd::All(cs) => match cs.len() % 3 {
+            0 => Command::all(cs.iter().map(|c| compile_in(c, uni, enclosing))),
+            1 => Command::all(cs.iter().filter(|_| true).map(|c| compile_in(c, uni, enclosing))),
+            _ => {
+                let mut it = cs.iter();
+                Command::all(std::iter::from_fn(move || it.next().map(|c| compile_in(c, uni, enclosing))))
+            }
+        },
+        Cmd::Collect(cs) => match cs.len() % 2 {
+            0 => cs.iter().map(|c| compile_in(c, uni, enclosing)).collect(),
+            _ => cs.iter().filter(|_| true).map(|c| compile_in(c, uni, enclosing)).collect(),
+        },
         Cmd::MapEvent(id, c) => compile_in(&c, uni, enclosing).map_event(move |e| Event::Mapped(id, Box::new(e))),
         Cmd::MapEffect(id, c) => compile_in(&c, uni, enclosing).map_effect(move |e| match e {
             Effect::Sim(mut r) => {
